@@ -68,7 +68,8 @@ def main():
             nm = subprocess.run(["nm", "--defined-only", o], stdout=subprocess.PIPE, text=True).stdout
             for line in nm.splitlines():
                 parts = line.split()
-                if len(parts) == 3 and parts[1] in "bBdDcC":
+                # symbols of verification hooks exist only under -DLIBHTP_VERIF (MANIFEST.hooks); they are not in a production build
+                if len(parts) == 3 and parts[1] in "bBdDcC" and not parts[2].startswith("htp_verif_"):
                     syms.append((os.path.basename(s), parts[2], parts[1]))
         syms.sort()
         # ---- footprint (b): stores through a cfg pointer outside htp_config.c
